@@ -115,6 +115,9 @@ def _build():
     d["gen/unit/context"] = ["context ctx is", "  library ieee;", "  use ieee.std_logic_1164.all;", "end context ctx;"]
     d["gen/unit/config"] = ["configuration cfg of ent is", "  for rtl", "    for u1 : cmp", "      use entity work.cmp(rtl);", "    end for;", "  end for;", "end configuration cfg;"]
     d["gen/unit/entgen"] = ["entity e2 is", "  generic (", "    g_w : integer := 8;", "    g_d : natural", "  );", "  port (", "    a, b : in    std_logic;", "    c    : inout std_logic_vector(g_w - 1 downto 0)", "  );", "end entity e2;"]
+    d["gen/unit/entinl"] = ["entity e3 is", "  generic (", "    g_a : integer := 1;", "    g_b : natural := 2);", "  port (", "    a : in    std_logic;", "    b : out   std_logic);", "end entity e3;"]
+    d["gen/unit/compinl"] = _arch(["component c3 is", "  generic (", "    g_a : integer := 1);", "  port (", "    a : in    std_logic;", "    b : out   std_logic);", "end component c3;"], ["a <= b;"])
+    d["gen/conc/instinl"] = _arch([], ["u4 : entity work.e3", "  generic map (", "    g_a => 1,", "    g_b => 2)", "  port map (", "    a => x,", "    b => y);"])
     single = sorted(d)
     for a in DECL:
         for b in DECL:
